@@ -207,14 +207,22 @@ def adversarial_vec_jobs(rnd, quick):
             tuples = [t for i, t in enumerate(tuples) if i in keep]
         upd = "observe" if fl == "histogram" else "inc"
         calls = [{"op": fl + "_vec", "as": "V", "opts": {"name": "m", "help": "h"}, "labels": names}]
-        for t in tuples:
+        refused = []     # indexes of calls that must be refused (Err) and leave no trace: wrong number of values, unknown / missing label name, removal of a tuple that has no child
+        for k, t in enumerate(tuples):
             calls += [{"op": "with", "vec": "V", "vals": list(t), "as": "c"}, {"op": upd, "obj": "c", "v": 1}]
+            if k % 37 == 5:
+                bad = [{"op": "with", "vec": "V", "vals": list(t) + ["extra"]}, {"op": "with", "vec": "V", "vals": list(t)[:-1]},
+                       {"op": "with_map", "vec": "V", "pairs": [[n, v] for n, v in zip(names, t)][:-1] + [["nosuchlabel", t[-1]]]},
+                       {"op": "with_map", "vec": "V", "pairs": [[n, v] for n, v in zip(names, t)][:-1]},
+                       {"op": "remove", "vec": "V", "vals": [v + "\u0001never" for v in t]}][k % 5]
+                refused.append(len(calls))
+                calls.append(bad)
         calls.append({"op": "summary", "obj": "V"})
         for t in tuples:
             calls += [{"op": "with_map", "vec": "V", "pairs": [[n, v] for n, v in reversed(list(zip(names, t)))], "as": "c"}, {"op": upd, "obj": "c", "v": 1}]
         calls.append({"op": "summary", "obj": "V"})
         calls.append({"op": "collect", "obj": "V"})
-        jobs.append({"id": "adv-%s" % "-".join(names), "calls": calls, "names": names, "flavour": fl, "tuples": tuples})
+        jobs.append({"id": "adv-%s" % "-".join(names), "calls": calls, "names": names, "flavour": fl, "tuples": tuples, "refused": refused})
     return jobs
 
 
@@ -222,11 +230,15 @@ def judge_adversarial(ctx, j, rs, prefix):
     n = len(j["tuples"])
     names = j["names"]
     rp = {"calls": j["calls"][:1] + j["calls"][-1:], "note": "full call list omitted (one `with`+update per tuple of the adversarial pool); see localisation in the message"}
-    bad = [x for x in rs if "ok" not in x]
+    refused = set(j.get("refused", []))
+    bad = [(i, x) for i, x in enumerate(rs) if ("ok" not in x) != (i in refused) or "panic" in x]
     if bad:
-        ctx.violation(prefix + ":call-failed", "%s vector with labels %s, %d tuples: %s" % (j["flavour"], names, n, bad[0]), rp)
+        i, x = bad[0]
+        ctx.violation(prefix + (":bad-call-accepted" if i in refused else ":call-failed"), "%s vector with labels %s, %d tuples: call #%d %s %s: %s" % (
+            j["flavour"], names, n, i, json.dumps(j["calls"][i])[:200], "must be refused with Err" if i in refused else "failed", json.dumps(x)[:200]), {"calls": [j["calls"][0], j["calls"][i]]})
         return False
-    s1, s2 = summary_of(rs[2 * n + 1]), summary_of(rs[4 * n + 2])
+    nr = len(refused)
+    s1, s2 = summary_of(rs[2 * n + 1 + nr]), summary_of(rs[4 * n + 2 + nr])
     ok1 = all((s1.get(k, {}).get("i") if isinstance(s1.get(k), dict) else s1.get(k)) == v for k, v in {"samples": n, "distinct": n, "min": 1, "max": 1}.items())
     ok2 = all((s2.get(k, {}).get("i") if isinstance(s2.get(k), dict) else s2.get(k)) == v for k, v in {"samples": n, "distinct": n, "min": 2, "max": 2}.items())
     if ok1 and ok2:
